@@ -152,7 +152,10 @@ package websocket
 //@ ghost local Conn.gType0 : Int
 //@ ghost local Conn.gMsg0 : Int
 //@ ghost local Conn.gClosed0 : Bool
+//@ ghost local Conn.gComp0 : Bool
 //@ pred isData(op int) := op == 0 || op == 1 || op == 2
+// pay(c, hl, j): payload byte j of the frame at the head of the cache as it was when the reader took the lock (hl = header length); unmasked with the frame's own key if the frame is masked
+//@ pred pay(c *Conn, hl int, j int) := ite(c.gCRow[c.gCOff + 1] >= 128, xor8(c.gCRow[c.gCOff + hl + j], c.gCRow[c.gCOff + hl - 4 + m4(j)]), c.gCRow[c.gCOff + hl + j])
 //@ func (*Conn).Parse$3
 //@   props C13 C12 C15 C11
 //@   safety index slice nil div assert panic make lock lockset
@@ -173,6 +176,12 @@ package websocket
 //@   ensures shiftlen: ok && err == nil && !c.gClosed0 ==> buflenw(c.bytesCached) == c.gCLen - totalFrameSize && totalFrameSize >= 2   // prop C12
 //@   ensures shift: ok && err == nil && !c.gClosed0 && c.bytesCached != nil ==> (forall q int {mem(*c.bytesCached, q)} :: off(*c.bytesCached) <= q && q < off(*c.bytesCached) + len(*c.bytesCached) ==> mem(*c.bytesCached, q) == c.gCRow[c.gCOff + totalFrameSize + q - off(*c.bytesCached)])   // prop C12
 //@   ensures asmlen: ok && err == nil && isData(opcode) && !fin && c.messageHandler != nil && !c.gClosed0 ==> buflenw(c.message) == c.gMLen + len(body)   // prop C12
+//@   ensures framebody: ok && err == nil && frame != nil && !c.gClosed0 ==> len(*frame) == len(body) && (forall q int {mem(*frame, q)} :: off(*frame) <= q && q < off(*frame) + len(*frame) ==> mem(*frame, q) == pay(c, totalFrameSize - len(body), q - off(*frame)))   // prop C12
+//@   ensures asmnew: ok && err == nil && isData(opcode) && !fin && c.messageHandler != nil && !c.gClosed0 && c.message != nil ==> (forall q int {mem(*c.message, q)} :: off(*c.message) + c.gMLen <= q && q < off(*c.message) + len(*c.message) ==> mem(*c.message, q) == pay(c, totalFrameSize - len(body), q - off(*c.message) - c.gMLen))   // prop C12
+//@   ensures asmkeep: ok && err == nil && isData(opcode) && !fin && c.messageHandler != nil && !c.gClosed0 && c.message != nil ==> (forall q int {mem(*c.message, q)} :: off(*c.message) <= q && q < off(*c.message) + c.gMLen ==> mem(*c.message, q) == c.gMRow[c.gMOff + q - off(*c.message)])   // prop C12
+//@   ensures dlvnew: ok && err == nil && message != nil && !ite(c.gType0 == 0, compress, c.gComp0) && !c.gClosed0 ==> len(*message) == c.gMLen + len(body) && (forall q int {mem(*message, q)} :: off(*message) + c.gMLen <= q && q < off(*message) + len(*message) ==> mem(*message, q) == pay(c, totalFrameSize - len(body), q - off(*message) - c.gMLen))   // prop C12
+//@   ensures dlvkeep: ok && err == nil && message != nil && !ite(c.gType0 == 0, compress, c.gComp0) && !c.gClosed0 ==> (forall q int {mem(*message, q)} :: off(*message) <= q && q < off(*message) + c.gMLen ==> mem(*message, q) == c.gMRow[c.gMOff + q - off(*message)])   // prop C12
+//@   ensures ctlbody: ok && err == nil && protocolMessage != nil && !c.gClosed0 ==> len(*protocolMessage) == len(body) && (forall q int {mem(*protocolMessage, q)} :: off(*protocolMessage) <= q && q < off(*protocolMessage) + len(*protocolMessage) ==> mem(*protocolMessage, q) == pay(c, totalFrameSize - len(body), q - off(*protocolMessage)))   // prop C12
 //@   ensures ctlmsg: isProtocolMessage ==> ok && isCtl(opcode)                                                  // prop C13
 //@   ensures own: err == nil ==> (message != nil ==> liveP[message]) && (frame != nil ==> liveP[frame]) && (protocolMessage != nil ==> liveP[protocolMessage])   // prop C11
 //@   ensures size: err == nil && message != nil && limit(c) > 0 ==> len(*message) <= limit(c)                  // prop C15
@@ -182,8 +191,8 @@ package websocket
 //@   ensures apart: (message != nil && frame != nil ==> message != frame) && (isProtocolMessage ==> message == nil && frame == nil) && (protocolMessage != nil ==> isProtocolMessage)   // prop C11
 //@   ensures quiet: err == nil && !ok ==> message == nil && frame == nil && protocolMessage == nil && !isProtocolMessage
 //@   ensures ctlsize: err == nil && protocolMessage != nil ==> len(*protocolMessage) <= 125                    // prop C13 C15
-//@   assigns everything, c.gRCache, c.gRMsg, c.gRType, c.gRExp, c.gRComp, c.gExp0, c.gType0, c.gMsg0, c.gClosed0, c.gCRow, c.gCLen, c.gCOff, c.gMRow, c.gMLen, c.gMOff
-//@   at lock#1 ghost { c.gExp0 = c.expectingFragments; c.gType0 = c.msgType; c.gMsg0 = c.message; c.gClosed0 = c.closed; c.gCRow = bytes_row(base(*c.bytesCached)); c.gCLen = buflenw(c.bytesCached); c.gCOff = off(*c.bytesCached); c.gMRow = bytes_row(base(*c.message)); c.gMLen = buflenw(c.message); c.gMOff = off(*c.message) }
+//@   assigns everything, c.gRCache, c.gRMsg, c.gRType, c.gRExp, c.gRComp, c.gExp0, c.gType0, c.gMsg0, c.gClosed0, c.gComp0, c.gCRow, c.gCLen, c.gCOff, c.gMRow, c.gMLen, c.gMOff
+//@   at lock#1 ghost { c.gExp0 = c.expectingFragments; c.gType0 = c.msgType; c.gMsg0 = c.message; c.gClosed0 = c.closed; c.gComp0 = c.compress; c.gCRow = bytes_row(base(*c.bytesCached)); c.gCLen = buflenw(c.bytesCached); c.gCOff = off(*c.bytesCached); c.gMRow = bytes_row(base(*c.message)); c.gMLen = buflenw(c.message); c.gMOff = off(*c.message) }
 //@ func (*Conn).Parse$2
 //@   inline
 
